@@ -65,7 +65,7 @@ def check(scn, H, view=None):
             elif D < 0 and w0[k] > band:
                 viol('sign-rule/negative-duty-positive-speed',
                      epoch=ep['index'], instant=k, motor_speed=w0[k], duty=D)
-            if s['und']:
+            if s['und'] or s['held'] is None:
                 st['near_threshold_skips'] += 1
                 prev = s
                 continue
@@ -80,7 +80,7 @@ def check(scn, H, view=None):
                          engage=s['engage'], release=s['release'],
                          speeds=[spd[p][k] for p in range(N)][:4],
                          accelerations=[acc[p][k] for p in range(N)][:4])
-                elif prev is not None and prev['held'] and prev['impl'] and \
+                elif prev is not None and prev['held'] is True and prev['impl'] and \
                         not s['first']:
                     for p in range(N):
                         if pos[p][k] != pos[p][k - 1]:
@@ -89,7 +89,7 @@ def check(scn, H, view=None):
                                  after=pos[p][k])
                             break
             else:
-                if prev is not None and prev['held'] and not s['first']:
+                if prev is not None and prev['held'] is True and not s['first']:
                     st['release'] += 1
                 # (c) free => not clamped
                 if s['impl'] and ((s['w_adv'] not in (None, 0)) or TN[k] != 0):
